@@ -699,8 +699,13 @@ def demoPending : Center :=
                .release none none (some 12)]).1
 example : demoPending.holds = [((none, none, none), ⟨1, [⟨1, 2, 7, some 12⟩], []⟩)] ∧
     pend demoPending 1 2 7 12 = 1 ∧ pend demoPending 1 2 7 10 = 0 := by decide
-example : delTo 1 2 7 12 (run 8 demoPending [.hold (some 1) none none none, .release none none none,
-    .release (some 1) none none]).2 = [.deliver 12 2 1 2 7] := by decide
+/-- a narrower hold is opened before the wide one ends: the copy moves once more, then arrives -/
+def pendingOps : List Op := [.hold (some 1) none none none, .release none none none, .release (some 1) none none]
+example : demoPending.scripts = [] ∧ demoPending.disabled = [] ∧ 2 ∉ demoPending.dead ∧
+    (∀ op ∈ pendingOps, isHoldOrPost op = true) ∧ postsOf 1 2 7 pendingOps = 0 ∧
+    (run 8 demoPending pendingOps).1.holds = [] := by decide
+example : delTo 1 2 7 12 (run 8 demoPending pendingOps).2 = [.deliver 12 2 1 2 7] ∧
+    due demoPending 1 2 7 12 = [.deliver 12 2 1 2 7] := by decide
 
 /-- two equal notifications for two observers in one queue -/
 def demoHeld : Center := (run 8 demo [.hold none none none none]).1
